@@ -22,7 +22,7 @@ import PoetryVerif.Proofs.PyConvLeafAlts
 import PoetryVerif.Proofs.PyConvNotIn
 import PoetryVerif.Proofs.VRangeOps
 import PoetryVerif.Proofs.MarkerProj
-import PoetryVerif.Proofs.PyConvFull
+import PoetryVerif.Proofs.PyConvFullNested
 import PoetryVerif.Proofs.PyConvWildNe
 
 set_option linter.unusedSimpArgs false
@@ -454,5 +454,15 @@ theorem pyConstraint_exact_validate {E : Env} {ex : List String} (hX : E.extras 
     (hvars : ∀ n ∈ M.vars m, pyNames.contains n = true) (h : gpc m = .ok g) :
     M.validate E m = .ok (g.allowsPlain (pyV X Y Z)) :=
   gpc_exact_validate_full hX hE m g hg hvars h
+
+/-- **`create_nested_marker` then `parse_marker` and `validate`**, for a Python range of the domain whose bounds have
+two or three components (`PyPrec2`): the marker read back lies in the domain and validates, on the environment of
+`X.Y.Z`, to exactly `allows(X.Y.Z)`. -/
+theorem createNested_poetry {E : Env} {ex : List String} (hX : E.extras = some ex) {X Y Z : Nat}
+    (hE : EnvPy E X Y Z) (c : VC) (hd : PyDomVC c = true) (hp2 : PyPrec2 c) (txt : String) (m : M)
+    (ht : createNestedMarker "python_version" c = .ok txt) (hm : parseMarker txt = .ok m) :
+    M.Good (FullLeaf E) m ∧ M.validate E m = .ok (c.allowsPlain (pyV X Y Z)) := by
+  obtain ⟨g, e⟩ := createNested_full hX hE c hd hp2 txt m ht hm
+  exact ⟨g, by rw [M.validate_eq_sem E m (M.good_mono (fun l hl => fullLeaf_evaluable hX hE hl) m g), e]⟩
 
 end Poetry.C11
